@@ -48,7 +48,8 @@ def rand_ast(rnd, depth, top=True):
     n = rnd.choice([1, 1, 2, 2, 3, 4, 6])  # an empty list is not in the documented grammar
     name = None
     if not top and rnd.random() < 0.4:
-        name = rnd.choice(["REPORTS", "SVIDS", "DS", "X1", "DATA", "L2", "name_9"])
+        # (a list may be named like a data item: "< L SVID < SVID > >" is how the catalogue's own S1F3 could be written)
+        name = rnd.choice(["REPORTS", "SVIDS", "DS", "X1", "DATA", "L2", "name_9", "SVID", "V", "TEXT", "ackc6"])
     return ("list", name, [rand_ast(rnd, depth - 1, top=False) for _ in range(n)])
 
 
